@@ -109,22 +109,28 @@ func (p *c14Prop) Gen(r *Rng, i int, tier string) interface{} {
 		} else if sel == 9 {
 			sel = 0
 		}
-		if c.Max == 0 && sel >= 3 && sel <= 8 {
-			sel = 0
+		mx := c.Max
+		if mx == 0 {
+			// the broker announces no Topic Alias Maximum: a client that uses one anyway (hostile) is told 0x94 at its
+			// first alias, whatever its value
+			mx = 5
+			if !hostile && sel >= 3 && sel <= 8 {
+				sel = 0
+			}
 		}
 		switch sel {
 		case 0, 1, 2: // plain
 			pk.Topic = ip(1 + r.Intn(4))
 		case 3, 4, 5: // bind
 			pk.Topic = ip(1 + r.Intn(4))
-			pk.Alias = ip(1 + r.Intn(c.Max))
+			pk.Alias = ip(1 + r.Intn(mx))
 			// authorised or refused, the packet binds its alias
 			bound = append(bound, *pk.Alias)
 		case 6, 7, 8: // alias only: a bound alias unless the sequence is hostile
 			if len(bound) > 0 && !(hostile && r.Chance(20)) {
 				pk.Alias = ip(bound[r.Intn(len(bound))])
 			} else if hostile {
-				pk.Alias = ip(1 + r.Intn(c.Max))
+				pk.Alias = ip(1 + r.Intn(mx))
 			} else {
 				pk.Topic = ip(1 + r.Intn(4))
 			}
